@@ -10,7 +10,8 @@ EXPLANATION = ("Decides structural clauses of C03, not the behaviour: SEIPDv1 â€
                "guard dominates hashing; failures leave the state machine in Error. SEIPDv2 â€” fill_inner cannot return Ok after "
                "reading new ciphertext without decrypt/decrypt_last succeeding; is_source_done is set only on the decrypt_last path; "
                "decrypt_last binds total length and info as AD of the final tag; decrypt binds the chunk index into the nonce on "
-               "every success path; AeadAlgorithm::decrypt_in_place returns Ok only from a primitive. Not decided: behaviour per flip position.")
+               "every success path; AeadAlgorithm::decrypt_in_place returns Ok only from a primitive. Not decided: behaviour per flip position."
+               ' Also: chunk nonce rewritten from the index by copy in both directions, drain loop before the final tag ends only at 0, Message::read does not take read(&mut []) for the end, and (shared with C09) no error of the decryptor stack is dropped.')
 ASSUMPTIONS = ["sha1, subtle::ConstantTimeEq and the aead crates behave as named", "flow-insensitive origin analysis"]
 
 SD = 'crypto::sym::decryptor::StreamDecryptorInner::<M, R>::'
